@@ -140,6 +140,8 @@ def wrapper_forms(target):
 WRAP_TARGETS = {
     "Obj": {"type": "object", "properties": {"z": {"type": "integer"}}},
     "ObjNested": {"type": "object", "properties": {"inner": {"type": "object", "properties": {"x": {"type": "integer"}}}, "kind": {"type": "string", "enum": ["k1", "k2"]}}},
+    # a composed child (declared before or after its parent, see the order dimension) that owns an inline class
+    "ChildNested": {"allOf": [{"$ref": R + "ParentOfChild"}, {"type": "object", "properties": {"inner": {"type": "object", "properties": {"x": {"type": "integer"}}}}}]},
     "En": {"type": "string", "enum": ["a", "b"]},
     "EnDefault": {"type": "string", "enum": ["a", "b"], "default": "b"},
     "IntDefault": {"type": "integer", "default": 20},
@@ -194,12 +196,18 @@ def cases(tier):
     for target in WRAP_TARGETS:
         for pos in POS + SHARED_POS:
             for req in ((False, True) if pos in ("prop", "param") else (False,)):
-                if pos.endswith("param") and target in ("Obj", "ObjNested", "Arr"):
+                if pos.endswith("param") and target in ("Obj", "ObjNested", "ChildNested", "Arr"):
                     continue
                 if pos == "root":
                     continue      # a component that is itself a bare $ref is not supported: not an equivalent notation
                 yield {"labels": ["rewrite=wrapper", f"target={target}", f"pos={pos}"] + (["req"] if req else []),
                        "payload": {"mode": "wrapper", "target": target, "pos": pos, "required": req}}
+                if target in ("ObjNested", "ChildNested") and pos in ("prop", "item", "root-item", "root-union") and not req:
+                    n = 4 if target == "ChildNested" else 3
+                    for perm in itertools.permutations(range(n)):
+                        if perm != tuple(range(n)):
+                            yield {"labels": ["rewrite=wrapper", f"target={target}", f"pos={pos}", "order=" + "".join(map(str, perm))],
+                                   "payload": {"mode": "wrapper", "target": target, "pos": pos, "required": False, "order": list(perm)}}
     # exclusive bounds
     for pos in POS:
         yield {"labels": ["rewrite=exclusive-bounds", f"pos={pos}"], "payload": {"mode": "bounds", "pos": pos}}
@@ -321,7 +329,15 @@ def run_case(p):
     elif mode == "wrapper":
         for n, sch in wrapper_forms(p["target"]).items():
             comps = {p["target"]: copy.deepcopy(WRAP_TARGETS[p["target"]])}
-            variants[n] = gen.generate(holder(p["pos"], sch, comps, p["required"]))
+            if p["target"] == "ChildNested":
+                comps["ParentOfChild"] = {"type": "object", "properties": {"id": {"type": "integer"}}}
+            doc = holder(p["pos"], sch, comps, p["required"])
+            if p.get("order"):
+                s_ = doc["components"]["schemas"]
+                keys = list(s_)
+                if len(keys) == len(p["order"]):
+                    doc["components"]["schemas"] = {keys[i]: s_[keys[i]] for i in p["order"]}
+            variants[n] = gen.generate(doc)
         key = f"wrapper/{p['target']}/{p['pos']}"
     elif mode == "bounds":
         for n, sch in bound_forms().items():
